@@ -1292,6 +1292,9 @@ func bnException(c *Ctx, f *ssa.Function, op ssa.Value) string {
 		// types[len(types)-1] under extra: the variadic flag is only ever set in
 		// an iteration of extractArgumentsType that also appends a type
 		if bo, ok := op.(*ssa.BinOp); ok && bo.Op == token.SUB {
+			if k, isC := bnConst(bo.Y); !isC || k != 1 {
+				return "" // only the last element is covered by "at least one type"
+			}
 			if S := bnLenOf(bo.X); S != nil {
 				if ex, ok := S.(*ssa.Extract); ok {
 					if call, ok := ex.Tuple.(*ssa.Call); ok && call.Call.StaticCallee() != nil && call.Call.StaticCallee().Name() == "extractArgumentsType" {
